@@ -41,9 +41,16 @@ def obligations():
         out.append("| %s | %d: %s | %s |" % (pid, len(obl), ", ".join("`%s`" % o for o in obl), ", ".join("`%s`" % o for o in opn) or "—"))
     return "\n".join(out)
 
+def claims():
+    out = []
+    for p in sorted(glob.glob(os.path.join(V, "harness", "claims", "C*.json"))):
+        pid = os.path.basename(p)[:-5]; c = json.load(open(p))
+        out.append("**%s** — *%s*\n\n%s\n\n*Assumed / trusted / partial:* %s\n" % (pid, c.get("technique", ""), c["text"], c["note"]))
+    return "\n".join(out)
+
 def main():
     p = os.path.join(V, "DESIGN.md"); s = open(p).read()
-    for name, fn in (("FINDINGS", findings), ("SEEDS", seeds), ("OBLIGATIONS", obligations)):
+    for name, fn in (("FINDINGS", findings), ("SEEDS", seeds), ("OBLIGATIONS", obligations), ("CLAIMS", claims)):
         b, e = "<!-- BEGIN %s -->" % name, "<!-- END %s -->" % name
         if b in s:
             s = s[: s.index(b) + len(b)] + "\n" + fn() + "\n" + s[s.index(e):]
